@@ -68,6 +68,14 @@ def _raise_with_locals(exc, nid):
     raise exc
 
 
+class _LazyText(object):
+    def __init__(self, text):
+        self.text = text
+
+    def __str__(self):
+        return self.text
+
+
 class _TeeLogger(object):
     """An application-defined ILogger: counts what passes through, forwards to the production logger and returns a (truthy) value;
     ILogger.write's return value is unspecified and must not matter to anybody."""
@@ -341,7 +349,12 @@ class Interp(object):
             # wherever the program first needs it (usually inside some action)
             lg_ = self._stdlib_logger()
             text = "stdlib message nid=%s" % (node["nid"],)
-            self.api("logging.Logger.warning", lg_.warning, "stdlib message nid=%s", node["nid"])
+            if isinstance(node["nid"], int) and node["nid"] % 3 == 1:
+                # the record's msg is an object (an exception instance, a lazily formatted message), not a string
+                obj = ValueError(text) if node["nid"] % 2 else _LazyText(text)
+                self.api("logging.Logger.warning(object)", lg_.warning, obj)
+            else:
+                self.api("logging.Logger.warning", lg_.warning, "stdlib message nid=%s", node["nid"])
             t, decl = "eliot:stdlib", None
             fields = {"log_level": "WARNING", "logger": lg_.name, "message": text, "nid": node["nid"]}
         elif style == "MessageType.log":
